@@ -133,6 +133,9 @@ func oracleCommit(c *Ctx) error {
 		if ids != nil && !ids[f.ID] {
 			return fmt.Errorf("blob %s recorded for %q was never the content of that file at an add", f.ID, f.Path)
 		}
+		if last, ok := c.H.LastStaged[f.Path]; ok && last != f.ID {
+			return fmt.Errorf("blob %s recorded for %q, but the bytes the file had when it was last staged have blob id %s", f.ID[:8], f.Path, last[:8])
+		}
 	}
 	// (4) parents: exactly the previous tip, none for the first commit on an unborn branch
 	if old == "" {
@@ -218,6 +221,21 @@ var profCommit = register(&Profile{
 
 // recordStagedIDs notes, for a successful add, the blob id of every named file's bytes.
 func recordStagedIDs(c *Ctx) {
+	if c.Step.Op == "goit" && !(c.IsGoit("add") && c.Res.Exit == 0) {
+		// any other command that changes a staged entry (reset, restore --staged, rm): the entry it installs
+		// comes from a commit or goes away; "last staged" follows the observed staging area
+		for p, id := range c.Post.IdxMap {
+			if c.Pre.IdxMap[p] != id {
+				c.H.LastStaged[p] = id
+			}
+		}
+		for p := range c.Pre.IdxMap {
+			if _, ok := c.Post.IdxMap[p]; !ok {
+				delete(c.H.LastStaged, p)
+			}
+		}
+		return
+	}
 	if !c.IsGoit("add") || c.Res.Exit != 0 {
 		return
 	}
@@ -226,8 +244,9 @@ func recordStagedIDs(c *Ctx) {
 			c.H.StagedIDs[p] = map[string]bool{}
 		}
 		c.H.StagedIDs[p][blobID(content)] = true
+		c.H.LastStaged[p] = blobID(content)
 	}
-	for _, a := range c.Step.Args[1:] {
+	for _, a := range cleanArgsIn(c, c.Step.Args[1:]) {
 		if content, ok := c.Pre.Work.Files[a]; ok {
 			note(a, content)
 		}
@@ -235,6 +254,9 @@ func recordStagedIDs(c *Ctx) {
 			for p, content := range c.Pre.Work.Files {
 				note(p, content)
 			}
+		}
+		if _, onDisk := c.Pre.Work.Files[a]; !onDisk && !c.Pre.Work.Dirs[a] {
+			delete(c.H.LastStaged, a)
 		}
 		for p, content := range c.Pre.Work.Files {
 			if under(a, p) {
@@ -245,4 +267,4 @@ func recordStagedIDs(c *Ctx) {
 }
 
 var commitWeights = Weights{"write-new": 22, "modify": 12, "remove-file": 6, "rmdir": 2, "recreate": 3, "add": 28, "rm": 6, "commit": 22,
-	"restore": 3, "restore-staged": 4, "reset": 5, "branch": 3, "switch": 4, "switch-c": 3, "tz": 2}
+	"copydir": 4, "file2dir": 2, "revert": 6, "recreate-unstaged": 2, "restore": 3, "restore-staged": 4, "reset": 5, "branch": 3, "switch": 4, "switch-c": 3, "tz": 2}
